@@ -180,7 +180,9 @@ def _pipeline_model(rep: Report, fa: FA, fi: FuncInfo, bvar: str, LN: int):
                 else:
                     out.append(("SPLIT_OTHER", st.lineno, t.elts[1].id))
             elif isinstance(t, ast.Name) and isinstance(v, ast.Call) and len(v.args) == 1 and isinstance(v.args[0], ast.Name) and \
-                    is_dc(v, v.args[0].id) and v.args[0].id != bvar:
+                    v.args[0].id != bvar and (is_dc(v, v.args[0].id) or (isinstance(v.func, ast.Attribute) and "collate" in v.func.attr)
+                                              or (isinstance(v.func, ast.Name) and "collate" in v.func.id)):
+                # default_collate(ctxs) or another collation helper applied to the per-sample contexts
                 out.append(("DC_CTX", st.lineno, v.args[0].id))
             elif isinstance(v, ast.Call) and isinstance(v.func, ast.Attribute) and v.func.attr == "collate" and \
                     isinstance(v.func.value, ast.Name) and v.func.value.id == cname:
@@ -257,7 +259,26 @@ def _pipeline_model(rep: Report, fa: FA, fi: FuncInfo, bvar: str, LN: int):
             work = []
             for env0, evs0, _ in inits:
                 flags0 = tuple(sorted((k, v) for k, v in env0.items() if isinstance(v, bool)))
-                work.append((flags0, False, False, ()))  # (flags, ghost collated, ghost split, history of modes)
+                # what happens before the first collator (a context split up front) sets the initial ghost state
+                g_c0 = g_s0 = False
+                pend0 = None
+                for e in evs0:
+                    if e[0] == "DC":
+                        g_c0 = True
+                    elif e[0] in ("SPLIT_TUPLE", "SPLIT_ZIP", "SPLIT_OTHER"):
+                        if not rc:
+                            problems.append(("G8.ctx-split-once", f"the context is split off (line {e[1]}) although return_ctx is false", e[1]))
+                        if e[0] == "SPLIT_TUPLE" and not g_c0:
+                            problems.append(("G8.ctx-split-once", f"the context is taken by tuple unpacking (line {e[1]}) from a batch "
+                                             f"that is still a list of samples", e[1]))
+                        if e[0] == "SPLIT_ZIP":
+                            pend0 = e[2]
+                        g_s0 = True
+                    elif e[0] == "DC_CTX" and pend0 == e[2]:
+                        pend0 = None
+                if pend0 is not None:
+                    problems.append(("G8.ctx-split-once", "the per-sample contexts split off before the loop are not collated", 0))
+                work.append((flags0, g_c0, g_s0, ()))  # (flags, ghost collated, ghost split, history of modes)
             while work:
                 flags, g_coll, g_split, hist = work.pop()
                 key = (flags, g_coll, g_split)
